@@ -63,7 +63,7 @@ def gen_sub(rnd, nops, kinds, nin=1, share=True):
         else:
           ins.append(("new", "c"))
     acts = [i for i in ins if isinstance(i, int) and i >= 0 and role[i] == "act"]
-    if k in ("EW2", "CONCAT"):
+    if k in ("EW2", "CONCAT", "CONCAT3"):
       if not acts:
         continue
       shs = [tsh[a] for a in acts]
